@@ -65,6 +65,10 @@ def validate_lang_trace(run, tr, label, props, shards=12):
     for i, why in all_rej:
         rec = json.loads(lines[i])
         owner = REASON_PROP.get(why, "C01" if rec.get("k") == "formula" else "C08")
+        if rec.get("k") == "outcome" and rec.get("stage") == "second eval" and props:
+            # evaluating the same ParsedFormula twice gave two answers (or the second evaluation panicked): state carried over
+            owner = sorted(props)[0]
+            why = "second evaluation of the same formula object: %s" % rec.get("panic", "")[:80]
         if why.startswith("specification:"):
             raise ToolError("Trace_Lang: %s for recorded text %r" % (why, rec.get("text")))
         if owner in props:
